@@ -176,7 +176,7 @@ fn specs(thorough: bool) -> Vec<Spec> {
     let cis: [u64; 5] = [0, 10_000, 16_000, 20_000, 40_000];
     let mut echoes: Vec<&str> = vec!["prompt", "delay-1000", "delay-15000", "delay-15999", "delay-16000", "delay-16001", "delay-17000", "never", "wrong-id", "twice", "prompt-first-1", "prompt-first-2", "delay-first-1-15000"];
     if !thorough {
-        echoes = vec!["prompt", "delay-15000", "delay-15999", "delay-16001", "never", "wrong-id", "twice", "prompt-first-1"];
+        echoes = vec!["prompt", "delay-1000", "delay-15000", "delay-15999", "delay-16001", "never", "wrong-id", "twice", "prompt-first-1", "prompt-first-2"];
     }
     let mut v = vec![];
     let mut triples: Vec<[u64; 3]> = vec![];
@@ -184,7 +184,7 @@ fn specs(thorough: bool) -> Vec<Spec> {
         for b in lats {
             for c in lats {
                 let slow = [a, b, c].iter().filter(|x| **x > 0).count();
-                if thorough || slow <= 1 || (slow == 2 && [a, b, c].iter().all(|x| [0, 16_000, 33_000].contains(x))) {
+                if thorough || slow <= 2 {
                     triples.push([a, b, c]);
                 }
             }
@@ -268,7 +268,7 @@ pub fn run(cli: Cli) -> ! {
     rep.set("timed_out", json!(dropped.load(Ordering::Relaxed)));
     rep.set("transferred", json!(transferred.load(Ordering::Relaxed)));
     rep.set("exhaustive", json!(true));
-    rep.set("rule", json!("product of adapter latencies {0,8,15.999,16,16.001,33,50 s}^3 (quick: at most one or two slow adapters), Client Information delay {0,10,16,20,40 s}, echo policy (prompt, delayed by d around the period, never, wrong id, duplicate, first-k-only, unsolicited every 5 s), login duration {0,20 s}; one connection each under virtual time; distinct_nontrivial = distinct timed clientbound traces"));
+    rep.set("rule", json!("product of adapter latencies {0,8,15.999,16,16.001,33,50 s}^3 (quick: at most two slow adapters), Client Information delay {0,10,16,20,40 s}, echo policy (prompt, delayed by d around the period, never, wrong id, duplicate, first-k-only, unsolicited every 5 s), login duration {0,20 s}; one connection each under virtual time; distinct_nontrivial = distinct timed clientbound traces"));
     rep.sample(json!({"spec": all[0]}));
     rep.sample(json!({"spec": Spec { lat: [33_000, 0, 0], ci_after: 0, echo: "delay-15999".into(), unsolicited_every: None, auth_ms: 0, locale: "en_us".into() }, "expect": "Keep Alive at 16 s and 32 s, Transfer at 33 s"}));
     rep.sample(json!({"spec": Spec { lat: [50_000, 0, 0], ci_after: 0, echo: "wrong-id".into(), unsolicited_every: None, auth_ms: 0, locale: "de_de".into() }, "expect": "Keep Alive at 16 s, timeout Disconnect (German) at 32 s"}));
